@@ -152,6 +152,19 @@ def generate(streams: core.Streams, tier: str) -> dict:
     # a collection 'action: global' document in front of the rules: its values (here the field list) are
     # merged into every rule that follows, in the batch as well as when a rule is loaded alone
     sc["global_doc"] = {"action": "global", "fields": ["gf1", "gf2"]} if gen.chance(w, 0.15) else None
+    if pipeline is not None and len(docs) >= 2 and gen.chance(w, 0.12):
+        # several rules with a Hashes field that the hashes_fields transformation splits up: valid
+        # algorithms in most rules, a disallowed one in one rule (that rule fails)
+        hs = ["MD5=0123456789abcdef0123456789abcdef", "SHA1=0123456789abcdef0123456789abcdef01234567",
+              "SHA256=" + "ab" * 32, "IMPHASH=0123456789ABCDEF0123456789ABCDEF"]
+        for k, d in enumerate(w.sample(docs, min(len(docs), 3))):
+            if "hsel" in d["detection"]:
+                continue
+            first = next(x for x in d["detection"] if x != "condition")
+            d["detection"]["hsel"] = {"Hashes|contains": [hs[(k + w.randrange(4)) % 4]]}
+            d["detection"]["condition"] = f"{first} or hsel"
+        pipeline["transformations"].append({"type": "hashes_fields", "field_prefix": "File",
+                                            "valid_hash_algos": ["MD5", "SHA1", "SHA256"]})
     return sc
 
 
